@@ -1,9 +1,18 @@
 #!/bin/sh
-# all_seeds.sh: must-fail corpus - applies every stored seed to /repo (must be clean), runs the quick check of its property, restores /repo.
-cd /verif/seeded || exit 2
-for d in */; do
-  d=${d%/}
-  p=$(echo $d | cut -c1-3)
-  r=$(/verif/tools/try_seed.sh /verif/seeded/$d $p 2>&1 | grep -c "^VIOLATION")
-  echo "$d violations=$r"
+# all_seeds.sh: must-fail corpus. Every stored seed is applied to a scratch copy of /repo's working tree (never to /repo
+# itself) and the quick check of its property must report it. Prints one line per seed; exit 1 if a seed is missed.
+export GOFLAGS=-mod=mod GOPROXY=off GOSUMDB=off GOTOOLCHAIN=local
+S=$(mktemp -d /tmp/govc_corpus.XXXXXX)
+mkdir -p "$S/verif"; cp /verif/known_findings.txt /verif/properties.jsonl "$S/verif/" 2>/dev/null
+missed=0
+for d in /verif/seeded/*/; do
+  d=${d%/}; id=$(basename $d); p=$(echo $id | cut -c1-3)
+  rm -rf "$S/repo"; rsync -a --exclude .git /repo/ "$S/repo/"
+  if ! (cd "$S/repo" && patch -p1 --fuzz=3 -s < "$d/patch.diff" >/dev/null 2>&1); then echo "$id patch-does-not-apply"; continue; fi
+  n=$(GOVC_REPO="$S/repo" GOVC_VERIF="$S/verif" /verif/bin/govc check "$p" quick 2>/dev/null | grep -c "^VIOLATION")
+  echo "$id violations=$n"
+  [ "$n" -eq 0 ] && missed=$((missed+1))
 done
+rm -rf "$S"
+echo "missed=$missed"
+[ "$missed" -eq 0 ]
